@@ -319,7 +319,7 @@ def build_map_pkg(rng, specs, extra_feats=()):
     names = [x[0] for x in specs]
     files = {"src/s.go": "package src\n\n" + "\n".join(src_decls), "dest/d.go": "package dest\n\n" + "\n".join(dest_decls)}
     setup = []
-    # one process per type: `shoot new -type=A,B` leaks `hasNew` from A into B (finding F_hasNewLeak)
+    # one process per type (before fix 2659527 `shoot new -type=A,B` leaked `hasNew` from A into B)
     for nm in new_dest:
         setup.append({"args": ["new", "-getset", "-type=" + nm], "cwd": "dest"})
     for nm in new_src:
